@@ -103,6 +103,12 @@ def gen_cases(rng, n):
             for prog in ("good", "good2"):
                 cases.append(dict(name=name, prog=prog, args=["-i", name, "-o", out, "-t", t], kind="normal", setup={}))
                 cases.append(dict(name=name, prog=prog, args=["-t", t, "-o", out, "-i", "./" + name], kind="normal", setup={}))
+    # directed: the input is not in the working directory and the output directory is given relative to it (round 6: C19-7)
+    for name in ("deep/er/p.tsh", "out2/q.tsh", "./deep/er/p.tsh", "deep/../deep/er/p.tsh"):
+        for out in (".", "out", "./out", "out2/sub", "{ABS}/out") + (("deep/er", "deep") if "deep" in name else ("out2",)):
+            for prog, ts in (("good", ["bash"]), ("good2", ["batch", "bash"]), ("batcherr", ["bash", "batch"])):
+                args = ["-i", name, "-o", out] + [x for t in ts for x in ("-t", t)]
+                cases.append(dict(name=os.path.normpath(name), prog=prog, args=args, kind="normal", setup={}))
     return cases
 
 
@@ -231,6 +237,9 @@ def run(res, b, tier, seed):
                 if extra:
                     fails.append((c, "unexpected files written: %s" % extra, r))
             else:
+                extra = [k for k in impl_changed if k not in {os.path.normpath(os.path.join(outdir, stem + "." + ("sh" if t == "bash" else "bat"))) for t in targets}]
+                if extra:
+                    fails.append((c, "unexpected files written: %s" % extra, r))
                 if r["status"] == 0:
                     fails.append((c, "exit status 0 although a target failed", r))
                 for t in set(targets):
